@@ -78,7 +78,7 @@ class Sequence:
         # create the chain of requirements among the new jobs
         for job1, job2 in zip(new_jobs, new_jobs[1:]):
             job2.requires(job1)
-        if self.jobs:
+        if self.jobs and new_jobs:
             new_jobs[0].requires(self.jobs[-1])
         self.jobs += new_jobs
         if self.scheduler is not None:
